@@ -58,48 +58,67 @@ def strip_map(s):
     return u''.join(chars), idx
 
 
+def collapse_map(s):
+    """runs of white space collapsed to one blank; idx[i] = position in `s` of collapsed character i"""
+    chars, idx = [], []
+    inws = False
+    for i, c in enumerate(s):
+        if c.isspace():
+            if not inws:
+                chars.append(u' '); idx.append(i)
+            inws = True
+        else:
+            chars.append(c); idx.append(i); inws = False
+    return u''.join(chars), idx
+
+
 def match_runs(out, main, notes, skip, target):
-    """greedy left-most matching of the runs (whitespace removed) as substrings, in order.
-       returns (problem list).  `skip`: flags whose runs are left out (known-finding classes)."""
+    """greedy left-most matching of the runs as substrings, in order, after collapsing every run of white space to one
+       blank on both sides ("alpha beta" is not "alphabeta").  Between two neighbouring runs of one paragraph that the
+       source separates - by white space at the edge of a run, a white-space-only text node, text:s / tab / line-break - the
+       output must have white space too (for MoinMoin: or [[BR]]).
+       returns (problem list).  `skip`: flags whose runs are left out (classes of former findings, to name a failure)."""
     seq = list(main)
     for nb in notes:
         seq.append(('x',)); seq.extend(nb)
-    stripped, idx = strip_map(out)
+    coll, idx = collapse_map(out)
     pos = 0
-    prev = None                  # (end index in `out`, par) of the last matched run that carries a unique word
+    prev = None                  # (end index in `out`, par, ends-with-white-space) of the last matched run with a unique word
     seps, clean = [], True       # separators since `prev`; clean = nothing but separators / inline boundaries since
     problems = []
     for ev in seq:
         if ev[0] == 'r':
-            t = u''.join(c for c in ev[1] if not c.isspace())
+            t = u' '.join(ev[1].split())
             if ev[3] & skip:
                 prev = None; continue
             if t == u'':
-                if ev[1] != u'':
-                    prev = None
                 continue
-            j = stripped.find(t, pos)
+            j = coll.find(t, pos)
             if j < 0:
                 problems.append(('missing', ev[1], sorted(ev[3])))
                 prev = None
                 continue
             st, en = idx[j], idx[j + len(t) - 1] + 1
-            if prev is not None and seps and prev[1] == ev[2] and UNIQ.search(t):
-                gap = out[prev[0]:st]
-                nws = sum(1 for c in gap if c.isspace())
-                need_br = sum(1 for s in seps if s[1] == 'br')
-                if target == 'x':
-                    if nws == 0:
-                        problems.append(('gap', seps, gap))
-                else:
-                    if clean:
-                        need = sum((s[2] if s[1] == 's' else 4) for s in seps if s[1] != 'br')
-                        if nws < need or gap.count(u'[[BR]]') < need_br:
-                            problems.append(('gap', seps, gap))
-                    elif nws == 0 and u'[[BR]]' not in gap:
-                        problems.append(('gap', seps, gap))
+            if prev is not None and prev[1] == ev[2] and UNIQ.search(t):
+                sp = list(seps)
+                if prev[2] or ev[1][:1].isspace():
+                    sp.append(('sep', 'edge', 0, False, False))
+                if sp:
+                    gap = out[prev[0]:st]
+                    nws = sum(1 for c in gap if c.isspace())
+                    need_br = sum(1 for s in sp if s[1] == 'br')
+                    if target == 'x':
+                        if nws == 0:
+                            problems.append(('gap', sp, gap))
+                    else:
+                        hard = [s for s in sp if s[1] in ('s', 'tab')]
+                        need = sum((s[2] if s[1] == 's' else 4) for s in hard) if clean else 0
+                        if any(s[1] in ('ws', 'edge') for s in sp):
+                            need = max(need, 1)
+                        if nws < need or (clean and gap.count(u'[[BR]]') < need_br) or (nws == 0 and u'[[BR]]' not in gap):
+                            problems.append(('gap', sp, gap))
             pos = j + len(t)
-            prev = (en, ev[2]) if UNIQ.search(t) else None
+            prev = (en, ev[2], ev[1][-1:].isspace()) if UNIQ.search(t) else None
             seps, clean = [], True
         elif ev[0] == 'sep':
             seps.append(ev)
@@ -329,7 +348,7 @@ def oracle(spec, res, neutral_res):
                 fails.append(('x-pending-before-textbox', '%s: run %r lost' % (tag, [p for p in probs if p[0] == 'missing'][0][1])))
             for p in probs2:
                 if p[0] == 'gap':
-                    if all(s[1] == 's' and s[3] for s in p[1]):
+                    if p[1] and all(s[1] == 's' and s[3] for s in p[1]):
                         fails.append(('x-space-before-pending-text', '%s: nothing between the neighbours of text:s: %r' % (tag, p[2])))
                     else:
                         fails.append(('x-separator-lost', '%s: %r left no whitespace: %r' % (tag, [s[1] for s in p[1]], p[2])))
@@ -362,7 +381,7 @@ def oracle(spec, res, neutral_res):
                                 seen.add(fl[0]); fails.append((fl[0], 'run %r lost' % (p[1],)))
                 for p in probs2:
                     if p[0] == 'gap':
-                        if all(s[4] for s in p[1]):
+                        if p[1] and all(s[4] for s in p[1]):
                             fails.append(('m-whitespace-only-inline', '%r inside a span/link of white space only gave %r' % ([(s[1], s[2]) for s in p[1]], p[2])))
                         else:
                             fails.append(('m-separator-lost', '%r gave %r' % ([(s[1], s[2]) for s in p[1]], p[2])))
@@ -562,6 +581,10 @@ CORPUS = [
     ('css-cdata-end-2', D([['p', u'n]]]>x', [T(u'k1z')]], ['p', u']]>]]>', [T(u'k2z')]]],
                           styles=[{'fam': 'paragraph', 'name': u'n]]]>x', 'auto': False, 'parent': None, 'bold': True, 'italic': False, 'color': u']]>]]><b>', 'margin': None},
                                   {'fam': 'paragraph', 'name': u']]>]]>', 'auto': True, 'parent': None, 'bold': False, 'italic': True, 'color': u'a]]]>', 'margin': None}])),
+    ('ws-between-inline-lf', D([P(['span', None, [T(u'k1z')]], T(u'\n'), ['span', None, [T(u'k2z')]], T(u'\n'), ['a', u'http://example.org/', [T(u'k3z')]])])),
+    ('ws-between-inline-mixed', D([P(T(u'\n  '), ['span', None, [T(u'k1z')]], T(u'\r\n'), ['span', None, [T(u'k2z')]], T(u'\t'), T(u'k3z'), T(u' '),
+                                   ['bmref', u'b', u'k4z'], T(u'\n\n'), ['span', None, [T(u'k5z')]], T(u'\n')),
+                                 ['h', 2, None, [T(u'k6z'), T(u'\n'), ['span', None, [T(u'k7z')]], T(u'\n\t\n'), T(u'k8z')]]])),
     ('moin-note-second-paragraph', D([P(T(u'k1z'), ['note', 'footnote', u'1', [P(T(u'k2z')), P(T(u'k3z'))]], T(u'k4z'))])),
     ('moin-table-in-cell', D([['table', u't', None, [[None, None]], [[None, [['cell', {'rs': None, 'cs': None, 'style': None},
         [['table', u'u', None, [[None, None]], [[None, [['cell', {'rs': None, 'cs': None, 'style': None}, [P(T(u'k1z'))]]]]]]]]]]]]])),
